@@ -325,6 +325,40 @@ type harness struct {
 	reg      *registry
 	failSeen bool // an exec failure has been logged (read / written in the scheduler only)
 	runIdx   int
+	// contexts handed to callbacks during the current run, with the node that got them
+	ctxMu   sync.Mutex
+	ctxSeen []seenCtx
+}
+
+type seenCtx struct {
+	node int
+	ctx  context.Context
+	dead bool
+}
+
+// noteCtx remembers a context a callback received and reports (as an event) any
+// context handed out earlier in this run that has died although the run's own
+// context is still alive: a later step could no longer use what an earlier one
+// created under it.
+func (h *harness) noteCtx(n *NodeSpec, ctx context.Context) {
+	if ctx == nil {
+		return
+	}
+	var died []int
+	h.ctxMu.Lock()
+	if h.ctx.Err() == nil {
+		for i := range h.ctxSeen {
+			if !h.ctxSeen[i].dead && h.ctxSeen[i].ctx.Err() != nil {
+				h.ctxSeen[i].dead = true
+				died = append(died, h.ctxSeen[i].node)
+			}
+		}
+	}
+	h.ctxSeen = append(h.ctxSeen, seenCtx{node: n.ID, ctx: ctx})
+	h.ctxMu.Unlock()
+	for _, d := range died {
+		simrt.Emit(simrt.Event{Kind: "ctx_died_early", N: d, V: n.ID})
+	}
 }
 
 func newHarness(sc *Scn) *harness {
@@ -683,9 +717,11 @@ type cb struct {
 }
 
 func (c cb) Prep(ctx context.Context, shared *flyt.SharedStore) (any, error) {
+	c.h.noteCtx(c.n, ctx)
 	return c.h.prep(c.n, shared)
 }
 func (c cb) Exec(ctx context.Context, prepResult any) (any, error) {
+	c.h.noteCtx(c.n, ctx)
 	v, er, err := c.h.exec(c.n, prepResult, true)
 	if er != nil {
 		return flyt.NewErrorResult(er), nil
@@ -693,6 +729,7 @@ func (c cb) Exec(ctx context.Context, prepResult any) (any, error) {
 	return v, err
 }
 func (c cb) Post(ctx context.Context, shared *flyt.SharedStore, p, e any) (flyt.Action, error) {
+	c.h.noteCtx(c.n, ctx)
 	return c.h.post(c.n, shared, p, e, false)
 }
 
@@ -761,6 +798,7 @@ func baseOpts(n *NodeSpec, form string) []flyt.NodeOption {
 
 func (h *harness) execFuncR(n *NodeSpec) func(context.Context, flyt.Result) (flyt.Result, error) {
 	return func(ctx context.Context, p flyt.Result) (flyt.Result, error) {
+		h.noteCtx(n, ctx)
 		v, er, err := h.exec(n, p, false)
 		if err != nil {
 			if v != nil {
@@ -777,6 +815,7 @@ func (h *harness) execFuncR(n *NodeSpec) func(context.Context, flyt.Result) (fly
 
 func (h *harness) execFuncA(n *NodeSpec) func(context.Context, any) (any, error) {
 	return func(ctx context.Context, p any) (any, error) {
+		h.noteCtx(n, ctx)
 		v, er, err := h.exec(n, p, true)
 		if er != nil {
 			panic("errres outcome scripted for an Any-style exec function")
@@ -844,17 +883,20 @@ func (h *harness) buildFunc(n *NodeSpec) flyt.Node {
 		opts = append(opts, o)
 	}
 	prepR := func(ctx context.Context, s *flyt.SharedStore) (flyt.Result, error) {
+		h.noteCtx(n, ctx)
 		v, err := h.prep(n, s)
 		if err != nil {
 			return flyt.Result{}, err
 		}
 		return flyt.NewResult(v), nil
 	}
-	prepA := func(ctx context.Context, s *flyt.SharedStore) (any, error) { return h.prep(n, s) }
+	prepA := func(ctx context.Context, s *flyt.SharedStore) (any, error) { h.noteCtx(n, ctx); return h.prep(n, s) }
 	postR := func(ctx context.Context, s *flyt.SharedStore, p, e flyt.Result) (flyt.Action, error) {
+		h.noteCtx(n, ctx)
 		return h.post(n, s, p, e, true)
 	}
 	postA := func(ctx context.Context, s *flyt.SharedStore, p, e any) (flyt.Action, error) {
+		h.noteCtx(n, ctx)
 		return h.post(n, s, p, e, false)
 	}
 	decoyAsBuilder := n.DecoyForm == "builder" && n.FnForm == "builder"
@@ -1264,6 +1306,9 @@ func (h *harness) runMain() {
 		if r == 1 {
 			h.reconfigure()
 		}
+		h.ctxMu.Lock()
+		h.ctxSeen = nil
+		h.ctxMu.Unlock()
 		simrt.Emit(simrt.Event{Kind: "run_start", N: r})
 		var action flyt.Action
 		var err error
